@@ -86,7 +86,8 @@ class WsExec:
         ws = self.ws
         try:
             return {"closed": bool(ws._closed), "closing": bool(ws._closing), "code": int(ws._close_code or 0),
-                    "waiting": bool(ws._waiting), "tclosing": bool(self.tr.closing), "lost": bool(self.tr.closed)}
+                    "waiting": bool(ws._waiting), "tclosing": bool(self.tr.closing), "lost": bool(self.tr.closed),
+                    "paused": bool(self.tr.write_paused)}
         except AttributeError:
             return {}
 
@@ -203,6 +204,41 @@ class WsExec:
         self.script.append(["settle"])
         self.bl.settle()
 
+    def local_close(self) -> None:
+        self.script.append(["local_close"])
+        if not self.tr.closing:
+            self.rec("localclose")
+            self.sess.local_close()
+
+    def session_close(self) -> None:
+        """client only: another task closes the ClientSession (-> connector -> ResponseHandler.close())."""
+        self.script.append(["session_close"])
+        if self.side != "client" or "X" in self.tasks:
+            return
+        self.rec("localclose")
+
+        async def _x() -> None:
+            await self.sess.kit.session.close()
+
+        task = self.loop.create_task(_x())
+        self.tasks["X"] = task
+        self.names[task] = "X"
+
+    def pause(self) -> None:
+        self.script.append(["pause"])
+        if not self.tr.closing and not self.tr.write_paused:
+            self.rec("pause")
+            self.sess.pause_writing()
+
+    def _io_resume(self) -> None:
+        if self.tr.write_paused:
+            self.rec("resume")
+            self.sess.resume_writing()
+
+    def resume(self) -> None:
+        self.script.append(["resume"])
+        self.bl.io(self._io_resume)
+
     def drop(self) -> None:
         self.script.append(["drop"])
         if not self.tr.closing:
@@ -236,6 +272,9 @@ class WsExec:
 
     def finish(self) -> dict:
         o = self.opts
+        self.bl.settle()
+        if self.tr.write_paused:        # back-pressure never outlasts the schedule
+            self.resume()
         self._run_out()
         # probe: if the session is still open and nobody is inside receive(), one more receive() is issued, so
         # that "receive() never blocks forever" is put to the test in every execution (silent peer from here on)
@@ -319,7 +358,8 @@ def _seq(x: Any) -> list:
 
 def model_projection(ms: dict) -> dict:
     return {"closed": bool(ms["closed"]), "closing": bool(ms["closing"]), "code": int(ms["code"]),
-            "waiting": bool(ms["waiting"]), "tclosing": bool(ms["tclosing"]), "lost": bool(ms["lost"])}
+            "waiting": bool(ms["waiting"]), "tclosing": bool(ms["tclosing"]), "lost": bool(ms["lost"]),
+            "paused": bool(ms["paused"])}
 
 
 def replay_behaviour(ctx: Ctx, loop: Any, beh: List[Any], consts: dict, src: str) -> dict:
@@ -355,6 +395,15 @@ def replay_behaviour(ctx: Ctx, loop: Any, beh: List[Any], consts: dict, src: str
                 drift = "boundary:Drop"
                 break
             x.drop()
+        elif act == "LocalClose":
+            x.local_close()
+        elif act == "PauseWriting":
+            x.pause()
+        elif act == "ResumeWriting":
+            if not x.bl.at_boundary():
+                drift = "boundary:Resume"
+                break
+            x.resume()
         elif act == "Tick":
             if not x.bl.at_boundary():
                 drift = "boundary:Tick"
@@ -419,6 +468,7 @@ def random_exec(ctx: Ctx, loop: Any, rng: Any) -> dict:
     peer_closed = False
     dropped = False
     ncancel = 0
+    npause = 0
     code = rng.choice([PEER_CODE, 1001, 3000])
     for _ in range(rng.randint(6, 40)):
         bl = x.bl
@@ -442,7 +492,13 @@ def random_exec(ctx: Ctx, loop: Any, rng: Any) -> dict:
                 acts.append("drop")
             if rng.random() < 0.05:
                 acts.append("eof")
-        if at_b and only_io and x.now() < 12:
+        if not x.tr.closing and rng.random() < 0.06:
+            acts.append("localclose")       # session.close() / protocol.close() / request.transport.close() by someone else
+        if not x.tr.closing and not x.tr.write_paused and npause < 2 and rng.random() < 0.10:
+            acts.append("pause")            # write back-pressure begins
+        if x.tr.write_paused and at_b:
+            acts += ["resume"] * 2
+        if at_b and only_io and x.now() < 12 and not x.tr.write_paused:
             acts += ["tick"] * (3 if bl.idle() else 1)
             nt = x.loop.next_timer()
             if can_peer and nt is not None and nt <= x.loop.time() + 1.0:
@@ -478,6 +534,17 @@ def random_exec(ctx: Ctx, loop: Any, rng: Any) -> dict:
         elif a == "eof":
             x.peer_eof()
             dropped = True
+        elif a == "localclose":
+            if side == "client" and rng.random() < 0.5:
+                x.session_close()
+            else:
+                x.local_close()
+            dropped = True
+        elif a == "pause":
+            x.pause()
+            npause += 1
+        elif a == "resume":
+            x.resume()
         elif a == "tick":
             x.tick()
             if chatty and not x.tr.closing and not peer_closed and not dropped and x.bl.at_boundary():
@@ -486,6 +553,9 @@ def random_exec(ctx: Ctx, loop: Any, rng: Any) -> dict:
             x.cancel(a[1])
             ncancel += 1
     # a chatty peer goes on for a while after the schedule proper (one frame per virtual second)
+    if x.tr.write_paused:          # assumption: back-pressure does not span virtual time
+        x.settle()
+        x.resume()
     if chatty and not peer_closed and not dropped:
         for _ in range(rng.randint(0, 2 * ct + 1)):
             x.settle()
@@ -521,6 +591,8 @@ CONSTANTS
   MaxPeer = {mp}
   MaxDrop = {md}
   MaxCancel = {mc}
+  MaxLocalClose = {lc}
+  MaxPause = {pz}
   FixRearm = {fr}
   FixShortcut = {fs}
   FixCwCancel = {fc}
@@ -550,7 +622,7 @@ def tla_set(xs: List[str]) -> str:
 
 def write_cfg(side: str, *, fixed: bool, invs: Optional[List[str]] = None, autoclose: bool = True, nrecv: int = 2,
               rt: int = 0, ct: int = 2, hb: int = 0, mt: int = 3, tasks: Tuple[str, ...] = ("R", "C"),
-              kinds: Tuple[str, ...] = ("data", "close"), mp: int = 2, md: int = 1, mc: int = 1,
+              kinds: Tuple[str, ...] = ("data", "close"), mp: int = 2, md: int = 1, mc: int = 1, lc: int = 0, pz: int = 0,
               fr: Optional[bool] = None, fs: Optional[bool] = None, fc: Optional[bool] = None, fe: Optional[bool] = None,
               m1: bool = False, m2: bool = False) -> Tuple[str, dict]:
     b = lambda v: "TRUE" if v else "FALSE"  # noqa: E731
@@ -560,7 +632,7 @@ def write_cfg(side: str, *, fixed: bool, invs: Optional[List[str]] = None, autoc
     p = os.path.join(d, "WsSession.cfg")
     with open(p, "w") as f:
         f.write(CFG.format(side=side, ac=b(autoclose), nrecv=nrecv, rt=rt, ct=ct, hb=hb, mt=mt, tasks=tla_set(list(tasks)),
-                           kinds=tla_set(list(kinds)), mp=mp, md=md, mc=mc,
+                           kinds=tla_set(list(kinds)), mp=mp, md=md, mc=mc, lc=lc, pz=pz,
                            fr=b((fixed or CODE_NOW["fr"]) if fr is None else fr),
                            fs=b((fixed or CODE_NOW["fs"]) if fs is None else fs),
                            fc=b((fixed or CODE_NOW["fc"]) if fc is None else fc),
@@ -574,7 +646,7 @@ def write_cfg(side: str, *, fixed: bool, invs: Optional[List[str]] = None, autoc
 def trace_signature(t: dict, pos: int) -> str:
     evs = t["events"][:pos + 1]
     keep = [f"{e['ev']}:{e['t'] or e['k']}{('=' + e['info']) if e['ev'] == 'ret' else ''}" for e in evs
-            if e["ev"] in ("call", "ret", "rx", "drop", "eof", "cancel")]
+            if e["ev"] in ("call", "ret", "rx", "drop", "eof", "cancel", "localclose", "pause")]
     return ",".join(keep[-8:])
 
 
@@ -619,7 +691,8 @@ def run(ctx: Ctx) -> None:
                 "chatty / polite / silent peers, drop, EOF, cancel); distinct = different event sequences of >= 5 events")
     ctx.assumptions = [
         "virtual time: the clock advances only when the loop is idle (apart from network events arriving at that instant)",
-        "no write back-pressure (drain() never suspends); compression only for the large-message sender B, whose "
+        "write back-pressure (pause_writing / resume_writing) never spans virtual time: a close() waiting in drain() is "
+        "resumed, cancelled or cut before the clock advances (on the server drain() is outside the close timeout); compression only for the large-message sender B, whose "
         "executor job completes as a loop handle (never delayed across virtual time)",
         "network events enter at _run_once boundaries, application spawn/cancel anywhere between two handles",
         "peer close codes differ from 1000 so that a made-up 1000 is distinguishable from the peer's code",
@@ -639,7 +712,8 @@ def run(ctx: Ctx) -> None:
                                [dict(), dict(tasks=("R", "C", "S"), kinds=("data", "close", "ping", "bad"), rt=1),
                                 dict(hb=2, mt=4, kinds=("data", "close", "pong"), mc=0),
                                 dict(autoclose=False, nrecv=3, kinds=("data", "close"), mp=2),
-                                dict(tasks=("R", "C", "B"))]):
+                                dict(tasks=("R", "C", "B")),
+                                dict(lc=1, pz=1), dict(hb=2, mt=4, autoclose=False, kinds=("close", "pong"), mc=0)]):
                 p, _ = write_cfg(side, fixed=fixed, **kw)
                 name = f"WsSession[{side},{'ideal' if fixed else 'as-coded'}]({','.join(f'{k}={v}' for k, v in kw.items())})"
                 model_specs.append((name, p))
@@ -655,9 +729,15 @@ def run(ctx: Ctx) -> None:
     for side in ("server", "client"):
         hb_cover = dict(hb=2, mt=4, mp=2, mc=0, md=0, kinds=("data", "pong"), tasks=("R",))
         big_cover = dict(tasks=("C", "B"), kinds=("close",), mp=0, mt=1, mc=1, md=1)
-        cover_cfgs = ctx.pick([dict(mp=1, mt=2, mc=0, md=1), dict(mp=1, mt=2, mc=1, md=0), hb_cover, big_cover],
+        # connection torn down from our own side; write back-pressure around close(); heartbeat with autoclose off
+        lc_cover = dict(tasks=("R", "C"), mp=1, mt=1, mc=0, md=0, lc=1)
+        pz_cover = dict(tasks=("C",), kinds=("close",), mp=1, mt=1, mc=1, md=1, pz=1)
+        hbc_cover = dict(hb=2, mt=4, mp=1, mc=0, md=0, kinds=("close",), tasks=("R", "C"), autoclose=False, nrecv=1)
+        cover_cfgs = ctx.pick([dict(mp=1, mt=2, mc=0, md=1), dict(mp=1, mt=2, mc=1, md=0), hb_cover, big_cover,
+                               lc_cover, pz_cover, hbc_cover],
                               [dict(mp=1, mt=2, mc=1, md=1), dict(mp=2, mt=3, mc=0, md=1), dict(mp=1, mt=3, mc=1, md=0, rt=1),
-                               hb_cover, dict(tasks=("C", "B"), kinds=("close",), mp=1, mt=2, mc=1, md=1)])
+                               hb_cover, dict(tasks=("C", "B"), kinds=("close",), mp=1, mt=2, mc=1, md=1),
+                               lc_cover, dict(tasks=("R", "C"), kinds=("close",), mp=1, mt=2, mc=1, md=1, pz=1), hbc_cover])
         for ck in cover_cfgs:
             p, consts = write_cfg(side, fixed=False, **ck)
             cover_jobs.append((side, ck, consts, pool.submit(cover_behaviours, "WsSession", p, timeout=2400, workers=1)))
@@ -666,7 +746,9 @@ def run(ctx: Ctx) -> None:
                    dict(autoclose=False, nrecv=3, mp=3, mt=4),
                    dict(tasks=("R", "C", "D"), kinds=("data", "close", "ping"), mp=3, mt=4, invs=["NoInternalAssert"]),
                    dict(tasks=("R", "C", "B"), kinds=("data", "close"), mp=2, mt=3),
-                   dict(tasks=("R", "C"), kinds=("data", "close"), rt=1, nrecv=3, mp=3, mt=5)):
+                   dict(tasks=("R", "C"), kinds=("data", "close"), rt=1, nrecv=3, mp=3, mt=5),
+                   dict(tasks=("R", "C"), kinds=("data", "close"), mp=2, mt=3, lc=1, pz=1),
+                   dict(hb=2, mt=6, autoclose=False, kinds=("data", "close", "pong"), mp=3)):
             p, consts = write_cfg(side, fixed=False, **kw)
             sim_jobs.append((side, consts, pool.submit(simulate_behaviours, "WsSession", p, num=ctx.pick(60, 1500), depth=40,
                                                        seed=ctx.seed, timeout=600)))
